@@ -54,7 +54,10 @@ class GroupIndices(DataflowTransactionContext):  # pylint: disable=too-few-publi
 
     @staticmethod
     def _get_asserted_int_values(
-        comparison_ins: "Instruction", compared_int: int, universal_set: List[int]
+        comparison_ins: "Instruction",
+        compared_int: int,
+        universal_set: List[int],
+        field_is_second_operand: bool = False,
     ) -> List[int]:
         """return list of ints from universal set(U) that will satisfy the comparison.
 
@@ -69,11 +72,22 @@ class GroupIndices(DataflowTransactionContext):  # pylint: disable=too-few-publi
             comparison_ins: comparison instruction used. can be [==, !=, <, <=, >, >=]
             compared_int: integer value compared.
             universal_set: list of all possible integer values for the field.
+            field_is_second_operand: True if the comparison is `compared_int <op> field` and not
+                `field <op> compared_int`. `int 3; global GroupSize; <` is `3 < GroupSize`.
 
         Returns:
             list of ints that will satisfy the comparison
         """
         U = list(universal_set)
+
+        is_less = isinstance(comparison_ins, Less)
+        is_less_e = isinstance(comparison_ins, LessE)
+        is_greater = isinstance(comparison_ins, Greater)
+        is_greater_e = isinstance(comparison_ins, GreaterE)
+        if field_is_second_operand:
+            # c < x is x > c
+            is_less, is_greater = is_greater, is_less
+            is_less_e, is_greater_e = is_greater_e, is_less_e
 
         if isinstance(comparison_ins, Eq):  # pylint: disable=no-else-return
             return [compared_int]
@@ -81,13 +95,13 @@ class GroupIndices(DataflowTransactionContext):  # pylint: disable=too-few-publi
             if compared_int in U:
                 U.remove(compared_int)
             return U
-        elif isinstance(comparison_ins, Less):
+        elif is_less:
             return [i for i in U if i < compared_int]
-        elif isinstance(comparison_ins, LessE):
+        elif is_less_e:
             return [i for i in U if i <= compared_int]
-        elif isinstance(comparison_ins, Greater):
+        elif is_greater:
             return [i for i in U if i > compared_int]
-        elif isinstance(comparison_ins, GreaterE):
+        elif is_greater_e:
             return [i for i in U if i >= compared_int]
         else:
             return U
@@ -120,6 +134,7 @@ class GroupIndices(DataflowTransactionContext):  # pylint: disable=too-few-publi
             ins1 = arg1.instruction
             ins2 = arg2.instruction
             compared_value = None
+            field_is_second_operand = False
 
             if isinstance(ins1, Global) and isinstance(ins1.field, GroupSize):
                 is_int, value = is_int_push_ins(ins2)
@@ -129,13 +144,16 @@ class GroupIndices(DataflowTransactionContext):  # pylint: disable=too-few-publi
                 is_int, value = is_int_push_ins(ins1)
                 if is_int:
                     compared_value = value
+                    field_is_second_operand = True
 
             if compared_value is None or not isinstance(compared_value, int):
                 # if the comparison does not check groupsize, return U as values that make the comparison false
                 return set(U), set(U)
 
             ins = ins_stack_value.instruction
-            asserted_values = self._get_asserted_int_values(ins, compared_value, U)
+            asserted_values = self._get_asserted_int_values(
+                ins, compared_value, U, field_is_second_operand
+            )
             return set(asserted_values), set(U) - set(asserted_values)
         return set(U), set(U)
 
